@@ -42,7 +42,7 @@ from .errors import (
 )
 from .filterparse import _add_prefix, _root_keys, parse_filter
 from .h5store import H5StoreManager
-from .job import Job, calc_id
+from .job import Job, _flush_buffered_documents, calc_id
 from .schema import ProjectSchema
 from .sync import sync_projects
 from .version import SCHEMA_VERSION, __version__
@@ -1039,6 +1039,8 @@ class Project:
         if copytree is None:
             copytree = shutil.copytree
         dst = self.open_job(job.statepoint())
+        # Copy the job with the document changes that are still buffered.
+        _flush_buffered_documents()
         try:
             copytree(job.path, dst.path)
         except OSError as error:
